@@ -40,6 +40,7 @@ type job struct {
 
 type tierCfg struct {
 	lost        bool
+	lostSingles bool // quick tier: "applied but reported failed" as the FIRST deviation only
 	pairs       func(sc string) bool
 	chain       bool
 	chainPairs  bool
@@ -58,7 +59,8 @@ func cfgFor(tier string) tierCfg {
 		c.deadline = 21 * time.Minute
 	} else {
 		c.pairs = func(string) bool { return true }
-		c.pairsNote = "pairs within one attempt on all pod kinds (kinds err/crash/watch answers); chained second attempts get single deviations"
+		c.lostSingles = true
+		c.pairsNote = "pairs within one attempt on all pod kinds (first deviation err/crash/lost/watch answers, second err/crash/watch answers); chained second attempts get single deviations"
 		c.deadline = 130 * time.Second
 	}
 	return c
@@ -228,7 +230,7 @@ func phase1(cfg tierCfg) ([]scenInfo, error) {
 			}
 		}
 		for i := range in.calls {
-			for _, k := range br.Deviations(&in.calls[i], cfg.lost) {
+			for _, k := range br.Deviations(&in.calls[i], cfg.lost || cfg.lostSingles) {
 				in.singles = append(in.singles, br.Dev{At: i, Kind: k})
 			}
 		}
